@@ -134,12 +134,87 @@ def _rf(e, memo):
     raise Give()
 
 
-def is_identically_zero(e):
-    """True if the numerator of e's rational normal form is the zero polynomial (sound: e == 0
-    wherever every division in e is defined)."""
+def _is_zero_val(z):
+    return z3.is_rational_value(z) and z.numerator_as_long() == 0
+
+
+def _degree_split(poly, s):
+    """returns {k: coefficient term} with poly == sum_k coeff_k * s^k (poly: polynomial term)"""
+    if poly.eq(s):
+        return {1: z3.RealVal(1)}
+    if z3.is_app(poly):
+        kind = poly.decl().kind()
+        if kind == z3.Z3_OP_ADD:
+            out = {}
+            for c in poly.children():
+                for k, v in _degree_split(c, s).items():
+                    out[k] = v if k not in out else out[k] + v
+            return out
+        if kind == z3.Z3_OP_MUL:
+            out = {0: z3.RealVal(1)}
+            for c in poly.children():
+                d = _degree_split(c, s)
+                nxt = {}
+                for k1, v1 in out.items():
+                    for k2, v2 in d.items():
+                        t = v1 * v2
+                        nxt[k1 + k2] = t if (k1 + k2) not in nxt else nxt[k1 + k2] + t
+                out = nxt
+            return out
+        if kind == z3.Z3_OP_POWER and z3.is_rational_value(poly.arg(1)) and poly.arg(1).denominator_as_long() == 1:
+            n = poly.arg(1).numerator_as_long()
+            base = _degree_split(poly.arg(0), s)
+            if list(base.keys()) == [0]:
+                return {0: poly}
+            if n >= 0:
+                out = {0: z3.RealVal(1)}
+                for _ in range(n):
+                    nxt = {}
+                    for k1, v1 in out.items():
+                        for k2, v2 in base.items():
+                            t = v1 * v2
+                            nxt[k1 + k2] = t if (k1 + k2) not in nxt else nxt[k1 + k2] + t
+                    out = nxt
+                return out
+            raise Give()
+        if kind == z3.Z3_OP_UMINUS:
+            return {k: -v for k, v in _degree_split(poly.arg(0), s).items()}
+        if kind == z3.Z3_OP_SUB:
+            out = dict(_degree_split(poly.arg(0), s))
+            for c in poly.children()[1:]:
+                for k, v in _degree_split(c, s).items():
+                    out[k] = -v if k not in out else out[k] - v
+            return out
+    return {0: poly}
+
+
+def is_identically_zero(e, sqrt_rel=()):
+    """True if the numerator of e's rational normal form is the zero polynomial, modulo the
+    relations s^2 == u for the given (s, u) pairs (s an atom standing for sqrt(u)).  Sound:
+    e == 0 wherever every division in e is defined and every u >= 0."""
     try:
         r = ratform(e)
         z = _som(r.num)
-        return z3.is_rational_value(z) and z.numerator_as_long() == 0
+        if _is_zero_val(z):
+            return True
+        rel = list(sqrt_rel)
+        while rel:
+            s, u = rel.pop()  # outermost first
+            from .solve import free_vars
+            if s.get_id() not in free_vars(z):
+                continue
+            parts = _degree_split(z, s)
+            even = None
+            odd = None
+            for k, c in parts.items():
+                t = c
+                for _ in range(k // 2):
+                    t = t * u
+                if k % 2 == 0:
+                    even = t if even is None else even + t
+                else:
+                    odd = t if odd is None else odd + t
+            return all(is_identically_zero(x, rel) for x in (even, odd) if x is not None)
+        return False
     except (Give, z3.Z3Exception, RecursionError):
         return False
